@@ -151,6 +151,17 @@ reg(
     "Trusted: pdv/extract.py embedding and pdv/refmodel/mpl.py. The oracle is relative to the returned posterior (independent of C03).",
 )
 
+reg(
+    "C13",
+    "interposed standard-normal draws (tape of zeros / scaled unit vectors / random vectors, every call logged) under disable_jit; response matrix of sample() vs the 50-digit joint smoothing covariance",
+    "posterior.sample and MarkovSequence.from_grid(prior).sample run with backend.random.normal replaced by a tape: zero draws "
+    "must reproduce the smoothing means at every output time and coefficient; the responses to (scaled) unit draws form the "
+    "linear map whose Gram matrix must equal the joint covariance assembled from the raw backward kernels (closed-form IWP joint "
+    "for prior sequences); random tapes check affinity; the call log proves one draw per time point; shapes (), (n,), (n,m) are "
+    "prepended. Fixed-interval posteriors (non-unit kernel scalings, non-zero offsets) and fixed-point posteriors, 3 factorisations.",
+    "Trusted: pdv/extract.markov_joint_mp; disable_jit turns the scan in sample() into a Python loop.",
+)
+
 NOT_BUILT_REASON = "check under construction in this session; not yet registered"
 
 
